@@ -1,29 +1,104 @@
 package main
 
 import (
+	"encoding/json"
 	"flag"
 	"fmt"
 	"os"
-	"time"
+	"strconv"
+	"strings"
 
 	"verif/harness/sim"
 )
 
+// vh run -prop C02 -tier quick -seed 1 -from 0 -to 4 -out file.jsonl
 func main() {
-	seed := flag.Int64("seed", 1, "seed")
-	blocks := flag.Int("blocks", 20, "blocks")
-	flag.Parse()
-	w := sim.NewWorld(sim.DefaultWorldCfg(*seed))
-	c := sim.NewChain(w, sim.AppOpts{})
-	defer c.Close()
-	t0 := time.Now()
-	for i := 0; i < *blocks; i++ {
-		br := c.NextBlock(sim.BlockPlan{Gap: 6 * time.Second})
-		if br.Err != nil {
-			fmt.Println("ERR", br.Height, br.Phase, br.Err, br.Panic)
-			os.Exit(1)
-		}
-		fmt.Printf("h=%d apphash=%x txs=%d valupd=%d\n", br.Height, br.AppHash[:6], len(br.Txs), len(br.Res.ValidatorUpdates))
+	if len(os.Args) < 2 {
+		fmt.Println("usage: vh run|replay ...")
+		os.Exit(2)
 	}
-	fmt.Println("ok", time.Since(t0))
+	switch os.Args[1] {
+	case "run":
+		run(os.Args[2:])
+	case "plan":
+		plan(os.Args[2:])
+	default:
+		fmt.Println("unknown command")
+		os.Exit(2)
+	}
+}
+
+func plan(args []string) {
+	fs := flag.NewFlagSet("plan", flag.ExitOnError)
+	prop := fs.String("prop", "", "property")
+	tier := fs.String("tier", "quick", "tier")
+	fs.Parse(args)
+	d := sim.Props[*prop]
+	if d == nil {
+		fmt.Println("{}")
+		return
+	}
+	json.NewEncoder(os.Stdout).Encode(map[string]int{"cases": d.Cases[*tier], "blocks": d.Blocks[*tier]})
+}
+
+func run(args []string) {
+	fs := flag.NewFlagSet("run", flag.ExitOnError)
+	prop := fs.String("prop", "C02", "property")
+	tier := fs.String("tier", "quick", "tier")
+	seed := fs.Int64("seed", 1, "seed")
+	from := fs.Int("from", 0, "first case")
+	to := fs.Int("to", 1, "one past last case")
+	casesFlag := fs.String("cases", "", "comma separated case numbers (overrides from/to)")
+	only := fs.Int("only", -1, "run exactly this case number (replay)")
+	trace := fs.String("trace", "", "from:to heights to trace on stderr (debugging)")
+	blocks := fs.Int("blocks", 0, "override blocks per case")
+	out := fs.String("out", "", "output jsonl (default stdout)")
+	fs.Parse(args)
+	d := sim.Props[*prop]
+	if d == nil {
+		fmt.Fprintln(os.Stderr, "unknown property", *prop)
+		os.Exit(2)
+	}
+	if *trace != "" {
+		var a, b int64
+		fmt.Sscanf(*trace, "%d:%d", &a, &b)
+		sim.DebugTracer = &sim.Tracer{From: a, To: b}
+	}
+	w := os.Stdout
+	if *out != "" {
+		f, err := os.Create(*out)
+		if err != nil {
+			panic(err)
+		}
+		defer f.Close()
+		w = f
+	}
+	enc := json.NewEncoder(w)
+	var list []int
+	for i := *from; i < *to; i++ {
+		list = append(list, i)
+	}
+	if *casesFlag != "" {
+		list = nil
+		for _, s := range strings.Split(*casesFlag, ",") {
+			n, err := strconv.Atoi(s)
+			if err == nil {
+				list = append(list, n)
+			}
+		}
+	}
+	if *only >= 0 {
+		list = []int{*only}
+	}
+	for _, i := range list {
+		b := d.Blocks[*tier]
+		if *blocks > 0 {
+			b = *blocks
+		}
+		spec := sim.CaseSpec{Prop: *prop, Tier: *tier, Seed: *seed, Case: i, Blocks: b}
+		fmt.Fprintf(os.Stderr, "CASE-START %s seed=%d case=%d\n", *prop, *seed, i)
+		res := sim.RunCase(spec)
+		enc.Encode(res)
+		fmt.Fprintf(os.Stderr, "CASE-END %s case=%d blocks=%d dead=%v viol=%d\n", *prop, i, res.BlocksRun, res.Dead, len(res.Violations))
+	}
 }
